@@ -285,6 +285,15 @@ Clauses(S, P, hasPrev, TauSet) ==   \* S = this solve's observation, P = previou
       c14e == IF solved /\ heur /\ lastSolve # 0 /\ primRange
                  /\ \E k \in 1..Len(S.G) : Abs(S.G[k] - ph[lastSolve].G[k]) > 1
               THEN {<<"C14", "returned-instance-is-not-the-last-solution", 0>>} ELSE {}
+      \* the objective of the last internal cvxpy problem is <W, G> with W the LAST weight handed to heuristic()
+      hEv == SelectSeq(S.phases, LAMBDA e : e.ev = "heuristic")
+      pairsNP == PairSeq(np)
+      c14f == IF solved /\ heur /\ Len(S.heurobj) = npair /\ Len(hEv) > 0 /\ hEv[Len(hEv)].n = np /\
+                 (LET W == hEv[Len(hEv)] IN \E k \in 1..npair :
+                     LET i == pairsNP[k][1] - 1  j == pairsNP[k][2] - 1
+                         w == IF i = j THEN W.W[i * W.n + j + 1] ELSE W.W[i * W.n + j + 1] + W.W[j * W.n + i + 1]
+                     IN Abs(S.heurobj[k] - w) > Tol(w, 2) + 2)
+              THEN {<<"C14", "heuristic-objective-is-not-the-last-weight", 0>>} ELSE {}
       \* ---------------- C13: solving again
       sameModel == hasPrev /\ S.edit = "none"
       \* every solve creates one fresh objective leaf (pep.py:404): compare the sent rows without the metric rows and
@@ -403,7 +412,7 @@ Clauses(S, P, hasPrev, TauSet) ==   \* S = this solve's observation, P = previou
   IN info \cup cXa \cup c05a \cup c05b \cup c05c \cup c05d \cup c05e \cup c05f \cup c05g \cup c01h
      \cup c01a \cup c01b \cup c01c \cup c01d \cup c01e \cup c01f \cup c01g
      \cup c02a \cup c02b \cup c02c \cup c02d \cup c02e \cup c02f \cup c02g \cup c02h \cup c02i \cup c02j
-     \cup c14a \cup c14b \cup c14c \cup c14d \cup c14e
+     \cup c14a \cup c14b \cup c14c \cup c14d \cup c14e \cup c14f
      \cup c13a \cup c13b \cup c13c \cup c13d \cup c13e \cup c13f
      \cup c11a \cup c11b \cup c11c \cup c11d \cup c11e \cup c11f \cup c11g \cup c11h \cup c11x
 Tag(step, cl) == {<<step, c[1], c[2], c[3]>> : c \in cl}
